@@ -177,13 +177,17 @@ def plan(seed, table, matrix, quick, pool):
             src_kind = mode if mode != '_aliases' else rng.choice(['_Import_names', '_ImportFrom_names'])
         if mode == 'arguments_lambda':
             src_kind = 'arguments_lambda'
-        if table[mode]['shape'] == 'op':
+        if kind == 'Expression':
+            texts = [t for k in ('BinOp', 'Call', 'Tuple', 'IfExp', 'Compare', 'Lambda', 'Name', 'Constant') for t in pool.get(k, [])]
+        elif kind == 'Interactive':
+            texts = [t for k in ('If', 'Assign', 'Expr', 'For', 'FunctionDef', 'With', 'Try', 'Return') for t in pool.get(k, [])]
+        elif table[mode]['shape'] == 'op':
             cat_ = mode if mode in fr.OPERATOR_TEXTS else _op_cat(table, kind)
             same = [t for t in pool.get(cat_, []) if ' '.join(t.split()) == fr.OP_TEXT[kind]]
             texts = [fr.OP_TEXT[kind]] + rng.sample(same, min(len(same), per_pair))
             if rng.random() < 0.5:
                 texts.append(rng.choice(fr.OPERATOR_TEXTS[cat_]))
-        else:
+        if kind not in ('Expression', 'Interactive') and table[mode]['shape'] != 'op':
             texts = pool.get(src_kind, [])
         if not texts:
             continue
@@ -194,12 +198,12 @@ def plan(seed, table, matrix, quick, pool):
             picks = rng.sample(na, min(per_pair // 2, len(na)))
             rest = [t for t in texts if t not in picks]
             picks += rng.sample(rest, min(per_pair - len(picks), len(rest)))
-        for t in picks:
+        off = rng.randrange(64)
+        for j, t in enumerate(picks):
             vs = fr.variants(t, mode in STMTLIKE or kind in ('Module', 'Interactive') or table[mode]['kinds'][0] in _STMT)
-            stress = [v for v in vs[1:] if v[0] in STRESS]
-            some = rng.sample(stress, min((nvar + 1) // 2, len(stress)))
-            others = [v for v in vs[1:] if v not in some]
-            chosen = [vs[0]] + some + rng.sample(others, min(nvar - len(some), len(others)))
+            # round-robin over the layouts, so that the picks of one (mode, kind) pair cover all of them
+            rest = vs[1:]
+            chosen = [vs[0]] + [rest[(off + j * nvar + i) % len(rest)] for i in range(min(nvar, len(rest)))]
             for vn, vt in chosen:
                 cases.append({'mode': mode, 'text': vt, 'cat': 'node:' + vn, 'kind': kind})
 
